@@ -5,7 +5,7 @@ open Driver_common
 let starts_with p s = String.length s >= String.length p && String.sub s 0 (String.length p) = p
 let after p s = String.sub s (String.length p) (String.length s - String.length p)
 
-(* faulty:<plan>   plan = "-" | <i>:err:<IO|NOENT|PNOTEXIST> | <i>:short:<k>, joined by '+' *)
+(* faulty:<plan>   plan = "-" | <i>:err:<IO|NOENT|PNOTEXIST|PNOENT|NOTEXIST> | <i>:short:<k>, joined by '+' *)
 let parse_fault_plan (arg : string) : (nat * fault) list =
   if arg = "" || arg = "-" then [] else
     List.map (fun part ->
@@ -15,6 +15,8 @@ let parse_fault_plan (arg : string) : (nat * fault) list =
               | "IO" -> { ek = KEIO; ewrapped = false }
               | "NOENT" -> { ek = KENOENT; ewrapped = false }
               | "PNOTEXIST" -> { ek = KNotExist; ewrapped = true }
+              | "PNOENT" -> { ek = KENOENT; ewrapped = true }
+              | "NOTEXIST" -> { ek = KNotExist; ewrapped = false }
               | _ -> failwith ("fault error " ^ e)) in
           (nat_of_int (int_of_string i), FltFail er)
         | [i; "short"; k] -> (nat_of_int (int_of_string i), FltShort (nat_of_int (int_of_string k)))
